@@ -46,7 +46,9 @@ RF_METHODS = ("newton", "broyden1", "broyden2", "linearmixing")
 GEN_MAXITER = {"rf": 200, "anderson_acc": 200, "gd": 4000, "adam": 20000}
 INF = float("inf")
 
-GD_VARIANTS = {"gd": {"step": 0.5, "gamma": 0.0}, "gdm": {"step": 0.3, "gamma": 0.5}}
+# gdms: small step, strong momentum - the step length GROWS during the first iterations (used with x_tol "xfirst")
+GD_VARIANTS = {"gd": {"step": 0.5, "gamma": 0.0}, "gdm": {"step": 0.3, "gamma": 0.5},
+               "gdms": {"step": 1e-3, "gamma": 0.9}}
 ADAM_OPTS = {"step": 0.05, "beta1": 0.9, "beta2": 0.999, "eps": 1e-8}
 
 
@@ -55,7 +57,9 @@ def _tols(dtype, kind):
     if kind == "opt":      # gd / adam: OR criteria on |df| and |dx|; relative ones are switched off (0)
         if dtype == "float32":
             return [(0.0, 1e-4)]     # |df| tests are not resolvable in float32 (eps * |F| ~ 1e-6)
-        return [(0.0, 1e-8), (1e-14, 0.0), (1e-14, 1e-8)]
+        # "xfirst": x_tol = 1.5 x the length of the very first step, so that the |dx| test holds at iteration 0
+        # (where the documented rule ignores it) and, with momentum, at no later iteration of a short run
+        return [(0.0, 1e-8), (1e-14, 0.0), (1e-14, 1e-8), (0.0, "xfirst")]
     if dtype == "float32":
         return [(1e-3, 1e-3), (1e-4, 1e-1), (1e-4, "inf"), (1e-1, 1e-4)]
     return [(1e-6, 1e-6), (1e-9, 1e-2), (1e-10, "inf"), (1e-2, 1e-9)]
@@ -77,6 +81,7 @@ def _method_variants(functional, tier):
     if functional == "minimize":
         out.append(("gd", None, None, None, "gd"))
         out.append(("gd", None, None, None, "gdm"))
+        out.append(("gd", None, None, None, "gdms"))
         out.append(("adam", None, None, None, "adam"))
     return out
 
@@ -116,6 +121,11 @@ def cases(tier, seed):
                                 if guess == "edge" and method in ("gd", "adam"):
                                     continue      # their tolerances are on |df| / |dx|, not on a residual
                                 for (ft, xt) in _tols(dtype, "opt" if method in ("gd", "adam") else "rf"):
+                                    if xt == "xfirst" and guess not in ("zero", "far"):
+                                        continue        # the first step vanishes at (or next to) the minimiser
+                                    if (variant == "gdms") != (xt == "xfirst" and method == "gd"):
+                                        if variant == "gdms" or (xt == "xfirst" and method == "gd"):
+                                            continue    # gdms is enumerated with "xfirst" only, and vice versa
                                     for mi in maxiters:
                                         if plane > 0 and mi in (1, 3):
                                             continue
@@ -127,6 +137,25 @@ def cases(tier, seed):
                                             "family": family, "dtype": dtype, "n": n, "shape": kind,
                                             "guess": guess, "f_tol": ft, "x_tol": xt, "maxiter": mi,
                                             "plane": plane, "seed": int(seed) if plane > 0 else 0})
+    # method names in another letter case select the same algorithm AND the same reduction of the problem
+    for (functional, method, variant, fnd, fam, spell) in (
+            ("equilibrium", "anderson_acc", None, "last", "tanh06", "Anderson_Acc"),
+            ("equilibrium", "anderson_acc", None, "all", "affine", "ANDERSON_ACC"),
+            ("equilibrium", "broyden1", None, None, "tanh06", "Broyden1"),
+            ("rootfinder", "linearmixing", None, None, "affine", "LinearMixing"),
+            ("minimize", "gd", "gd", None, "quad", "GD"),
+            ("minimize", "adam", "adam", None, "lcosh", "Adam"),
+            ("minimize", "broyden2", None, None, "quad", "BROYDEN2")):
+        for (n, kind) in ((2, "2n"), (5, "n")):
+            if fnd == "all" and kind == "n":
+                continue
+            for guess in ("zero", "far"):
+                ft, xt = _tols("float64", "opt" if method in ("gd", "adam") else "rf")[0]
+                out.append({"functional": functional, "method": method, "variant": variant,
+                            "alpha": (-1.0 if method in ("broyden1", "broyden2", "linearmixing") else None),
+                            "line_search": (True if method in RF_METHODS else None), "feat_ndims": fnd,
+                            "family": fam, "dtype": "float64", "n": n, "shape": kind, "guess": guess, "f_tol": ft,
+                            "x_tol": xt, "maxiter": "gen", "plane": 0, "seed": 0, "spell": spell})
     # canonical order: simplest first
     out.sort(key=lambda c: (c["plane"], c["n"], c["shape"], c["dtype"] != "float64"))
     return out
@@ -162,9 +191,9 @@ def _build_call(cfg, prob, log):
     else:
         resid = lambda y: prob.gradF(y, *params)
 
-    xt = INF if cfg["x_tol"] == "inf" else float(cfg["x_tol"])
+    xt = INF if cfg["x_tol"] == "inf" else (0.0 if cfg["x_tol"] == "xfirst" else float(cfg["x_tol"]))
     ft = float(cfg["f_tol"])
-    opts = {"method": method}
+    opts = {"method": cfg.get("spell", method)}     # "spell": the method name in another letter case
     if method in RF_METHODS:
         mi = GEN_MAXITER["rf"] if cfg["maxiter"] == "gen" else int(cfg["maxiter"])
         opts.update(f_tol=ft, x_tol=xt, f_rtol=INF, x_rtol=INF, maxiter=mi, line_search=bool(cfg["line_search"]))
@@ -215,6 +244,11 @@ def run_case(cfg):
         y0 = (ys + d * u).contiguous()
     else:
         y0 = prob.guess(cfg["guess"])
+    if cfg["x_tol"] == "xfirst":
+        g0 = flat_norm(resid(y0))
+        first = opts["step"] * (g0 if cfg["method"] == "gd" else math.sqrt(y0.numel()))
+        xt = 1.2 * first
+        opts["x_tol"] = xt
     y0_copy = y0.clone()
     eps = _eps(cfg["dtype"])
     method = cfg["method"]
